@@ -1,6 +1,6 @@
 #!/bin/bash
 # usage: tools/confirm_mutant.sh <ID> <mN>   -- confirms a sub-agent's mutant in its scratch worktree and files it under seeded/
-ID=$1; M=$2; WT=/tmp/wt-$ID; SRC=/tmp/mut-$ID
+ID=$1; M=$2; R=${ROUND:-}; WT=/tmp/wt$R-$ID; SRC=/tmp/mut$R-$ID; TAG=${R:+r$R}
 cd $WT || exit 9
 git checkout -q -- . ; git clean -fdq
 /venv/bin/python $SRC/${M}_demo.py > /dev/shm/demo0.txt 2>&1; d0=$?
@@ -10,9 +10,9 @@ summary=$(/venv/bin/python -m pytest -q -p no:cacheprovider -n ${NJ:-10} --timeo
 git checkout -q -- . ; git clean -fdq
 echo "$ID/$M demo_clean=$d0 demo_mutant=$d1 tests: $summary"
 if [ $d0 -eq 0 ] && [ $d1 -ne 0 ] && echo "$summary" | grep -q "1076 passed" && ! echo "$summary" | grep -q failed; then
-  D=/verif/seeded/$ID-$M; mkdir -p $D
+  D=/verif/seeded/$ID-$TAG$M; mkdir -p $D
   cp $SRC/$M.diff $D/patch.diff; cp $SRC/${M}_demo.py $D/demo.py; cp $SRC/$M.md $D/notes.md
-  /venv/bin/python - "$ID" "$M" "$summary" "$d0" "$d1" <<'PY'
+  /venv/bin/python - "$ID" "$TAG$M" "$summary" "$d0" "$d1" <<'PY'
 import json,sys
 ID,M,summary,d0,d1=sys.argv[1:6]
 notes=open('/verif/seeded/%s-%s/notes.md'%(ID,M)).read()
